@@ -214,6 +214,7 @@ func cmdCheck(args []string) int {
 	}
 
 	nOb, nDis := 0, 0
+	confirmedFailures := 0
 	backends := map[string]int{}
 	solverS := 0.0
 	var samples []map[string]interface{}
@@ -269,7 +270,13 @@ func cmdCheck(args []string) int {
 			if isClaimed && (ob.Status == "undecided" || weakRefutation) && ob.File != "" {
 				// retries at 4x and then 12x the timeout (both variants) before a claimed obligation that
 				// ran out of time is reported: a loaded machine must not turn into an alarm
-				for _, factor := range []int{4, 12} {
+				ladder := []int{4, 12}
+				if confirmedFailures >= 2 {
+					// two claimed obligations already failed after the full ladder: the run reports a
+					// violation anyway, the remaining ones get the short retry only
+					ladder = []int{4}
+				}
+				for _, factor := range ladder {
 					type vr struct {
 						r     SolveResult
 						typed bool
@@ -316,9 +323,12 @@ func cmdCheck(args []string) int {
 					if decided {
 						break
 					}
-					if plainSat != nil && factor == 12 {
+					if plainSat != nil && factor == ladder[len(ladder)-1] {
 						ob.Status, ob.Solver, ob.Model = "refuted", plainSat.Solver, plainSat.Model
 					}
+				}
+				if ob.Status != "discharged" {
+					confirmedFailures++
 				}
 			}
 			if ob.Status == "discharged" {
